@@ -36,7 +36,7 @@ func runBubble(out *Outcome, fn func()) {
 	// ... except (a) at quiescent instants chosen by the driver (Sim.maybeGC: every other
 	// goroutine is durably blocked, so the collection cannot reorder anything), and (b)
 	// as a safety valve far above what (a) lets accumulate
-	memOld := debug.SetMemoryLimit(6 << 30)
+	memOld := debug.SetMemoryLimit(3 << 30)
 	defer func() {
 		debug.SetGCPercent(gcOld)
 		debug.SetMemoryLimit(memOld)
